@@ -3,6 +3,8 @@ import PsyVerif.Lemmas.MiniFSem
 import PsyVerif.Lemmas.LoopTransChunk
 import PsyVerif.Lemmas.LoopTransFuse
 import PsyVerif.Lemmas.LoopTransHoist
+import PsyVerif.Lemmas.LoopTransHoistBound
+import PsyVerif.Lemmas.LoopTransSwap
 /-! # C05 — Accepted loop transformations preserve serial semantics
 
 Models: `PsyVerif/Model/LoopTrans.lean` (`chunkValidate/chunkApply`, `fuseValidate/fuseApply`,
@@ -99,6 +101,51 @@ def HoistSafe (t : HoistTarget) (x : Nat) : Prop :=
   ∀ r ∈ rVars t.s, r ≠ t.v ∧ r ∉ wVars (seqs t.pre) ∧ r ∉ wVars (seqs t.post)
 
 instance (t : HoistTarget) (x : Nat) : Decidable (HoistSafe t x) := by unfold HoistSafe; exact inferInstance
+
+/-- the symbols created by `HoistLoopBoundExprTrans.apply` are new: pairwise distinct and not
+referenced in the loop header or read in the body -/
+def HoistBoundFresh (t : HoistBoundTarget) : Prop :=
+  (t.fLo ≠ t.fHi ∧ t.fLo ≠ t.fSt ∧ t.fHi ≠ t.fSt) ∧
+  ∀ f ∈ [t.fLo, t.fHi, t.fSt], f ∉ eVars t.l.lo ∧ f ∉ eVars t.l.hi ∧ f ∉ eVars t.l.st ∧ f ∉ rVars t.l.body
+
+instance (t : HoistBoundTarget) : Decidable (HoistBoundFresh t) := by unfold HoistBoundFresh; exact inferInstance
+
+/-- what an accepted interchange has been checked for: neither loop variable occurs in the
+other loop's start, stop or step expression (all six positions) -/
+theorem swapValidate_ok {t : SwapTarget} {vi : Nat} {loI hiI stI : Expr} {B : Stmt}
+    (hb : t.body = [.loop vi loI hiI stI B]) (h : swapValidate t = .ok ()) :
+    vi ∉ eVars t.lo ++ eVars t.hi ++ eVars t.st ∧ t.v ∉ eVars loI ++ eVars hiI ++ eVars stI := by
+  unfold swapValidate at h
+  rw [hb] at h
+  simp only [List.length_nil, Nat.lt_irrefl, if_false] at h
+  split at h
+  · cases h
+  · rename_i h1
+    split at h
+    · cases h
+    · rename_i h2
+      exact ⟨by simpa using h1, by simpa using h2⟩
+
+/-- syntactic part of the interchange side condition: distinct loop variables, not assigned in
+the body, no loop referencing its OWN variable in its header, and no header variable written
+by the body -/
+def SwapFrame (v vi : Nat) (lo hi st loI hiI stI : Expr) (B : Stmt) : Prop :=
+  v ≠ vi ∧ v ∉ wVars B ∧ vi ∉ wVars B ∧
+  v ∉ eVars lo ++ eVars hi ++ eVars st ∧ vi ∉ eVars loI ++ eVars hiI ++ eVars stI ∧
+  ∀ x ∈ eVars lo ++ eVars hi ++ eVars st ++ eVars loI ++ eVars hiI ++ eVars stI, x ∉ wVars B
+
+instance (v vi : Nat) (lo hi st loI hiI stI : Expr) (B : Stmt) :
+    Decidable (SwapFrame v vi lo hi st loI hiI stI B) := by unfold SwapFrame; exact inferInstance
+
+/-- a body whose instances are independent: `m(i,j) = m(i,j) + 1` (ids j=0, i=1, m=2) -/
+def swapOkBody : Stmt := .store2 2 (.var 1) (.var 0) (.bin .add (.idx2 2 (.var 1) (.var 0)) (.lit 1))
+
+theorem swapOkBody_ncd : NoCarriedDep swapOkBody 0 1 := by
+  intro a b a' b' hne x l h1 h2
+  have hne' : ¬ (b = b' ∧ a = a') := fun h => hne (by rw [h.1, h.2])
+  obtain ⟨y, i, j⟩ := l
+  simp only [InstG, swapOkBody, exec, eval, evalBin, Store.set_apply, Prod.mk.injEq] at *
+  grind
 
 /-! ## The property -/
 
@@ -312,6 +359,41 @@ theorem C05_swap_dependence_counterexample :
   revert this
   decide
 
+/-- **Interchange is sound when the body carries no dependence**: for an accepted nest with
+arbitrary (rectangular) bound and step expressions and trip counts, if the instances of the
+body for different index pairs commute (`NoCarriedDep`, the semantic test `LoopSwapTrans` does
+not make), every location except the two loop variables ends with the same value.  Missing
+parts: bodies with carried dependences (`C05_swap_dependence_counterexample`), the final
+values of the loop variables (zero-trip finding), headers that mention their own variable
+or variables the body writes (`SwapFrame`). -/
+theorem C05_swap_sound_partial (t : SwapTarget) (hacc : swapValidate t = .ok ())
+    (vi : Nat) (loI hiI stI : Expr) (B : Stmt) (hb : t.body = [.loop vi loI hiI stI B])
+    (hf : SwapFrame t.v vi t.lo t.hi t.st loI hiI stI B) (hnc : NoCarriedDep B t.v vi) (σ : Store) :
+    ∀ l : Loc, l ≠ (t.v, 0, 0) → l ≠ (vi, 0, 0) → (exec (swapApply t) σ) l = (exec t.original σ) l := by
+  obtain ⟨hc1, hc2⟩ := swapValidate_ok hb hacc
+  obtain ⟨hne, hwo, hwi, hoo, hii, hw⟩ := hf
+  simp only [List.mem_append, not_or, eVars_eq, wVars_eq] at hc1 hc2 hwo hwi hoo hii hw
+  have hS : swapApply t = .loop vi loI hiI stI (.loop t.v t.lo t.hi t.st B) := by
+    unfold swapApply; rw [hb]
+  have hO : t.original = .loop t.v t.lo t.hi t.st (.loop vi loI hiI stI B) := by
+    unfold SwapTarget.original; rw [hb]; rfl
+  rw [hS, hO]
+  exact swap_sound B t.v vi hne hwo hwi t.lo t.hi t.st loI hiI stI
+    (fun x hx => ⟨fun h => by subst h; rcases hx with h | h | h <;> simp_all,
+                  fun h => by subst h; rcases hx with h | h | h <;> simp_all,
+                  hw x (by rcases hx with h | h | h <;> simp [h])⟩)
+    (fun x hx => ⟨fun h => by subst h; rcases hx with h | h | h <;> simp_all,
+                  fun h => by subst h; rcases hx with h | h | h <;> simp_all,
+                  hw x (by rcases hx with h | h | h <;> simp [h])⟩)
+    hnc σ
+
+/-- non-vacuity: `do j = n, k, 2 ; do i = 1, 8 ; m(i,j) = m(i,j) + 1` is accepted, framed and
+carries no dependence -/
+example :
+    let t : SwapTarget := ⟨0, .var 4, .var 5, .lit 2, [.loop 1 (.lit 1) (.lit 8) (.lit 1) swapOkBody]⟩
+    swapValidate t = .ok () ∧ SwapFrame t.v 1 t.lo t.hi t.st (.lit 1) (.lit 8) (.lit 1) swapOkBody ∧
+    NoCarriedDep swapOkBody t.v 1 := ⟨by decide, by decide, swapOkBody_ncd⟩
+
 theorem C05_swap_statement_false : ¬ C05_swap_statement := fun h =>
   C05_swap_dependence_counterexample.2 (h swapWitness C05_swap_dependence_counterexample.1)
 
@@ -379,5 +461,64 @@ example : hoistValidate ⟨0, .lit 1, .lit 5, .lit 1, [.store1 1 (.var 0) (.var 
     = .error .hoistAccessedBefore := by decide
 example : hoistValidate ⟨0, .lit 1, .lit 5, .lit 1, [], .assign 2 (.lit 1), [.assign 2 (.lit 3)]⟩
     = .error .hoistOtherWrite := by decide
+
+/-! ### HoistLoopBoundExprTrans -/
+
+/-- **Hoisting loop-bound expressions is sound, unconditionally**: for every loop (any bound
+and step expressions, any trip count, any body) and every store, the loop preceded by the
+assignments of its non-trivial bounds to the new scalars leaves every variable except the
+new scalars with the same value.  Only hypothesis: the created symbols are new. -/
+theorem C05_hoistBound_sound (t : HoistBoundTarget) (_hacc : hoistBoundValidate t = .ok ())
+    (hfresh : HoistBoundFresh t) (σ : Store) :
+    ∀ x i j, x ≠ t.fLo → x ≠ t.fHi → x ≠ t.fSt →
+      (exec (hoistBoundApply t) σ) (x, i, j) = (exec t.l.stmt σ) (x, i, j) := by
+  obtain ⟨hd, hf⟩ := hfresh
+  apply hoistBound_sound t hd
+  intro f hfm
+  have := hf f (by rcases hfm with h | h | h <;> simp [h])
+  simpa [eVars_eq, rVars_eq] using this
+
+/-- non-vacuity and sanity: `do i = n+1, b(2), -1` hoists start, stop and the (non-literal) step -/
+example :
+    let t : HoistBoundTarget := ⟨⟨0, .bin .add (.var 4) (.lit 1), .idx1 2 (.lit 2), .un .neg (.lit 1),
+      .store1 1 (.var 0) (.var 0)⟩, 5, 6, 7⟩
+    hoistBoundValidate t = .ok () ∧ HoistBoundFresh t ∧
+    hoistBoundApply t = .seq (.assign 7 (.un .neg (.lit 1))) (.seq (.assign 6 (.idx1 2 (.lit 2)))
+      (.seq (.assign 5 (.bin .add (.var 4) (.lit 1)))
+        (.loop 0 (.var 5) (.var 6) (.var 7) (.store1 1 (.var 0) (.var 0))))) := by decide
+
+example : hoistBoundApply ⟨⟨0, .lit 1, .var 4, .lit 1, .skip⟩, 5, 6, 7⟩ = .loop 0 (.lit 1) (.var 4) (.lit 1) .skip := by decide
+
+/-! ### LoopTiling2DTrans -/
+
+/-- full statement for 2D tiling (composition chunk ∘ chunk ∘ swap of the real code) -/
+def C05_tile_statement : Prop :=
+  ∀ t : TileTarget, tileValidate t = .ok () →
+    ObsEq [t.outO, t.elO, t.outI, t.elI] (tileApply t) t.original
+
+/-- `do j=1,2: do i=1,4: m(i,j) = m(i+2,j-1) + 1` with `tilesize = 2` (ids: j=0, i=1, m=2) -/
+def tileWitness : TileTarget :=
+  ⟨0, .lit 1, .lit 2, .lit 1,
+   [.loop 1 (.lit 1) (.lit 4) (.lit 1)
+      (.store2 2 (.var 1) (.var 0)
+        (.bin .add (.idx2 2 (.bin .add (.var 1) (.lit 2)) (.bin .sub (.var 0) (.lit 1))) (.lit 1)))],
+   2, 3, 4, 5, 6⟩
+
+/-- tiling inherits the missing dependence test of `LoopSwapTrans`: accepted, and `m(1,2)` is
+computed before `m(3,1)` -/
+theorem C05_tile_dependence_counterexample :
+    tileValidate tileWitness = .ok () ∧
+    ¬ ObsEq [tileWitness.outO, tileWitness.elO, tileWitness.outI, tileWitness.elI]
+        (tileApply tileWitness) tileWitness.original := by
+  refine ⟨by decide, fun h => ?_⟩
+  have := h (storeOf []) 2 1 2 (by decide)
+  revert this
+  decide
+
+theorem C05_tile_statement_false : ¬ C05_tile_statement := fun h =>
+  C05_tile_dependence_counterexample.2 (h tileWitness C05_tile_dependence_counterexample.1)
+
+example : tileValidate { tileWitness with tile := 0 } = .error .badOption := by decide
+example : tileValidate { tileWitness with st := .lit 3 } = .error .stepTooLarge := by decide
 
 end C05
